@@ -811,6 +811,11 @@ api_muladd(unsigned char *A, const unsigned char *B, size_t len,
 	point_encode(A, &P, cc);
 	r &= ~(z & t);
 
+	/*
+	 * A zero multiplier is an error.
+	 */
+	r &= br_ec_multiplier_nonzero(x, xlen)
+		& br_ec_multiplier_nonzero(y, ylen);
 	return r;
 }
 
